@@ -376,6 +376,17 @@ def run(repo, rep):
                 if _is_caught_variable(s, e, par):
                     continue        # ``raise e`` of the exception just caught: no new failure
                 builtin_exc = isinstance(getattr(__import__('builtins'), name, None), type)
+                if not builtin_exc and isinstance(s.exc, ast.Call) and isinstance(e, ast.Name):
+                    # ``raise helper(...)``: the class is the one every return of the helper constructs
+                    r_ = repo.resolve(f.module, e.id)
+                    if r_ and r_[0] == 'func':
+                        built = {dotted(x.value.func) for x in ast.walk(r_[1].node)
+                                 if isinstance(x, ast.Return) and isinstance(x.value, ast.Call) and dotted(x.value.func)}
+                        rets_ = [x for x in ast.walk(r_[1].node) if isinstance(x, ast.Return) and x.value is not None]
+                        if len(built) == 1 and len(rets_) == sum(1 for x in rets_ if isinstance(x.value, ast.Call)) \
+                                and isinstance(getattr(__import__('builtins'), next(iter(built)), None), type):
+                            name = next(iter(built))
+                            builtin_exc = True
                 kind = 'raise ' + (name if (builtin_exc or isinstance(s.exc, ast.Call)) else '<variable>')
                 if name == 'StopIteration':
                     continue
